@@ -171,6 +171,38 @@ def _cc_exc(S, a, exc):
             ("and before anything was scheduled or saved by this invocation", S.Not(S.Or(a.ghost.scheduled, a.ghost.saver_added)))]
 
 
+def _partial_loader_hook(eng, args, kw, st, fr, k, node):
+    """self._get_partial_loader_for(key, time_range=..., chunk_number=...).  At the call site inside the loop over the subruns of a
+    superrun the loader must be the one of THAT subrun, restricted to the part of it the run definition selects."""
+    from pyvc.engine import strv
+    gi = z3.Function("getitem", V, V, V)
+    if "subrun" in st.env and "sub_run_spec" in st.env and "sub_key" in st.env:
+        spec, subrun = eng.to_v(st.env["sub_run_spec"]), eng.to_v(st.env["subrun"])
+        sel = gi(spec, subrun)
+        tr = eng.to_v(kw.get("time_range", PNONE))
+        from pyvc.engine import NONE
+        eng.oblige("superrun", "the loader of a subrun reads exactly the part of the subrun the run definition selects: everything for "
+                               "'all', otherwise the time range recorded for it in sub_run_spec", st,
+                   z3.And(z3.Implies(sel == strv("all"), tr == NONE), z3.Implies(sel != strv("all"), tr == sel)), node)
+        eng.oblige("superrun", "the loader of a subrun is asked for under the key of that subrun and this data type", st,
+                   z3.And(eng.to_v(args[0]) == eng.to_v(st.env["sub_key"]) if args else z3.BoolVal(False),
+                          st.ghost["key_made_for"] == subrun), node)
+    return Abstract(pure=True).apply(eng, "self._get_partial_loader_for", args, kw, st, fr, k, node)
+
+
+def _key_for_hook(eng, args, kw, st, fr, k, node):
+    g = dict(st.ghost)
+    if args:
+        g["key_made_for"] = eng.to_v(args[0])
+    return Abstract(pure=True).apply(eng, "self.key_for", args, kw, St(st.env, st.heap, st.pc, g), fr, k, node)
+
+
+def _ldrs_append(eng, args, kw, st, fr, k, node):
+    g = dict(st.ghost)
+    g["ldr_appended"] = eng.to_v(args[-1])
+    return k(PNONE, St(st.env, st.heap, st.pc, g))
+
+
 check_cache = REG.add(Contract(
     F, "Context.get_components.check_cache",
     params=dict(target_i="V"),
@@ -181,20 +213,26 @@ check_cache = REG.add(Contract(
             "RuntimeError": lambda S, a: S.true, "ValueError": lambda S, a: S.true,
             "AssertionError": lambda S, a: S.true, "Exception": lambda S, a: S.true},
     exc_ensures=_cc_exc,
-    ghost={"saver_added": z3.BoolVal(False), "scheduled": z3.BoolVal(False), "loader_registered": z3.BoolVal(False)},
+    ghost={"saver_added": z3.BoolVal(False), "scheduled": z3.BoolVal(False), "loader_registered": z3.BoolVal(False),
+           "key_made_for": z3.Const("no_key_yet", V), "ldr_appended": z3.Const("no_loader_appended", V)},
     consts=dict(SAVE_WHEN, TEMP_DATA_TYPE_PREFIX="_temp_"),
     calls={"self._add_saver": _add_saver_hook, "check_cache": _recursive_call,
-           "self.key_for": Abstract(pure=True), "self._get_partial_loader_for": Abstract(pure=True),
+           "self.key_for": _key_for_hook, "self._get_partial_loader_for": _partial_loader_hook, "ldrs.append": _ldrs_append,
            "self._check_forbidden": Abstract(sort=None, may_raise=["DataNotAvailable"]),
            "self.run_metadata": Abstract(pure=True), "self.make": Abstract(sort=None, may_raise=["Any"]),
            "self.log.warning": Abstract(sort=None)},
     store_hooks={"to_compute": _to_compute_hook, "loaders": _loaders_hook, "loader_plugins": _noop_hook,
                  "del:plugins": _noop_hook},
-    loops={1: Loop(lambda S, a: []), 2: Loop(lambda S, a: []), 3: Loop(lambda S, a: [])},
+    loops={1: Loop(lambda S, a: [], runs_to_exhaustion=True,
+                   iterates=lambda S, a: [("the subruns are visited in the order of the run definition (sub_run_spec)",
+                                           S.eq(a.it_, a.sub_run_spec))],
+                   body_ensures=lambda S, a: [("the loader of every subrun is added to the loaders that are chained",
+                                               S.eq(a.ghost.ldr_appended, a._loader))]),
+           2: Loop(lambda S, a: []), 3: Loop(lambda S, a: [])},
     local_sorts={"loader": "V", "_chunk_number": "V", "_subrun_time_range": "V"},
     # loops 1-2 (subrun loaders, dependency recursion) do not touch this invocation's ghost flags; loop 3 creates savers
     # (the declared frame is checked: a ghost variable outside it must be unchanged at the end of the loop body)
-    loop_ghost={1: [], 2: [], 3: ["saver_added"]},
+    loop_ghost={1: ["key_made_for", "ldr_appended"], 2: [], 3: ["saver_added"]},
 ))
 
 
